@@ -154,6 +154,9 @@ def op_kind(case, name):
 
 def check_case(case):
     k = case['k']
+    if k == 'sparse':
+        from . import c08
+        return c08.check_sparse(case)
     if k == 'arraypad':
         return check_arraypad(case)
     if k == 'history':
@@ -195,7 +198,14 @@ def _arraypad(tier):
 STRATEGIES = {'histories': _histories, 'fcopies': _fcopies, 'circ': _circ, 'arraypad': _arraypad}
 
 
+def _sparse_copies():
+    """C08's sparse-range shapes with the what-ifs applied to a deepcopy / dill copy (taken before or after a first calculation):
+    the copy honours them, the original stays what it was."""
+    from . import c08
+    return [c for c in c08.sparse_cases() if any(op[0] == 'copy' for op in c['ops'])]
+
+
 def parts(tier, seed):
     q = tier == 'quick'
     return [('hyp', 'histories', 480 if q else 6000, 8), ('hyp', 'fcopies', 160 if q else 4000, 10), ('hyp', 'circ', 64 if q else 1500, 4),
-            ('hyp', 'arraypad', 160 if q else 3000, 10)]
+            ('hyp', 'arraypad', 160 if q else 3000, 10), ('enum', 'sparse-ranges-on-copies', _sparse_copies(), 3, False)]
